@@ -243,10 +243,13 @@ def mixed2(pid, jobs, lean, proved_text, technique, extra_trusted=()):
     sp['level_text'] = proved_text + ' The rest of the chain is only covered by the bounded stand-in: ' + sp['level_text'].replace('Bounded stand-in only: ', '')
     sp['explanation'] = 'mixed: functions listed under functions_proved are verified deductively from their current source; everything under functions_bounded_only is bounded (see level_text)'
     sp['trusted_base'] = list(sp.get('trusted_base', [])) + list(extra_trusted)
-mixed2('C13', [('contracts.pda', k) for k in ('fn.get_next_free[State]', 'fn.get_next_free[StackSymbol]', 'PDA.to_final_state', 'PDA.to_empty_stack')], [],
-       'Deductive for PDA.to_final_state and PDA.to_empty_stack: the result has exactly the operand transitions plus the bottom-marker wrapper transitions, a start state, an end state and a bottom symbol that are proved fresh (not states / stack symbols of the operand, pairwise different) through the proved contract of get_next_free, for every PDA incl. ones that already use the reserved names; the operand is unchanged.',
-       'contract-based deductive verification (pyvc + z3) of the acceptance-mode wrappers and of get_next_free; bounded run-time contract checking (exact PDA membership oracle) for to_cfg, to_pda and for the language statements',
-       ['language statements of the two wrappers from their proved structure: Hopcroft-Motwani-Ullman Thm 6.9 / 6.11, assumed, backed by the bounded comparison',
+mixed2('C13', [('contracts.pda', k) for k in ('fn.get_next_free[State]', 'fn.get_next_free[StackSymbol]', 'PDA.to_final_state', 'PDA.to_empty_stack')]
+       + [('contracts.cfg2pda', 'PDA.add_transition'), ('contracts.cfg2pda', 'CFG.to_pda'), ('contracts.cfg_creator', 'CfgCreatorC.get_stack_symbol_from')], [],
+       'Deductive for PDA.to_final_state and PDA.to_empty_stack: the result has exactly the operand transitions plus the bottom-marker wrapper transitions, a start state, an end state and a bottom symbol that are proved fresh (not states / stack symbols of the operand, pairwise different) through the proved contract of get_next_free, for every PDA incl. ones that already use the reserved names; the operand is unchanged. '
+       'Deductive for CFG.to_pda: the result is exactly the one-state PDA of the textbook construction (one epsilon move per production pushing the converted body, one pop move per terminal, nothing else; start stack symbol = converted start symbol), through the proved contract of the public mutator PDA.add_transition, under a conversion of grammar symbols to stack symbols that is proved injective on the source of PDAObjectCreator.get_stack_symbol_from (it was not on the pinned tree: fix cc31095).',
+       'contract-based deductive verification (pyvc + z3) of the acceptance-mode wrappers, get_next_free, CFG.to_pda, PDA.add_transition and the symbol converter; bounded run-time contract checking (exact PDA membership oracle) for to_cfg and for the language statements',
+       ['language statements of the two wrappers and of to_pda from their proved structure: Hopcroft-Motwani-Ullman Thm 6.9 / 6.11 / 6.13, assumed, backed by the bounded comparison',
+        'to_pda: terminals of the grammar are required not to be cfg.Epsilon objects; str(value), "#TERM#" + s and s + "\'" are uninterpreted string functions; the PDA constructor and pda.utils.PDAObjectCreator.to_state/to_symbol/to_stack_symbol are modelled at value level (identity on objects of the right class) and not verified; that the while loop of get_stack_symbol_from terminates is not verified',
         'facts about Python strings assumed: the six reserved prefixes are pairwise different and end in "#" (so prefix+digits of one never equals another); State / StackSymbol equality is equality of the value',
         'view-level contracts of pda.TransitionFunction.copy / add_transition and of the PDA constructor are assumed (their concrete dict-of-set representation is not verified)'])
 
